@@ -14,7 +14,7 @@ TRUSTED = cc.TRUSTED + [
     "Server.Close/Shutdown); in the thorough tier the same schedules run under the Go race detector",
 ]
 ASSUMPTIONS = ["backends return once their reader fails", "races on memory the model does not name and anything inside crypto/tls or net are not covered"]
-RULE = ("accept2 probe: one server, two listeners with 0-2 idle connections each, a listener whose Close reports an error, every pair of endings: Close must end every connection and make every Serve return, a second ending reports closed | race detector: the harness built with -race replays several hundred conversations with early/late deliveries, chunked transfers, forced orders and the accept cases; any DATA RACE report in the package is a violation | accept probe with connections stuck in an implicit-TLS handshake: Close (racing with their registration) must end every one; | accept probe: every sequence up to the tier's length over {connection, temporary error, permanent error} x every pair of "
+RULE = ("accept2 probe: one server, two listeners with 0-2 idle connections each, a listener whose Close reports an error, every pair of endings: Close must end every connection and make every Serve return, a second ending reports closed | race detector: the harness built with -race replays several hundred conversations with early/late deliveries, chunked transfers, forced orders, the accept cases and endings (Server.Close, Shutdown, Conn.Close by the application) fired without waiting for the command loop — nothing orders them against the handler that is running; any DATA RACE report in the package is a violation | accept probe with connections stuck in an implicit-TLS handshake: Close (racing with their registration) must end every one; | accept probe: every sequence up to the tier's length over {connection, temporary error, permanent error} x every pair of "
         "endings over {Close, Shutdown, none}; sched probe: every order of {aborted delivery completes, next transaction arrives, its delivery "
         "completes} for 2-3 overlapping chunked transfers (SMTP and LMTP), plus Close / Shutdown / QUIT / disconnect while a delivery is in "
         "flight; goroutines left behind are counted after each case. non-trivial = at least one accept outcome or one gated delivery")
@@ -144,4 +144,33 @@ def race_cases(tier, rng):
     out += sched_cases(tier, rng)
     out += _late(tier, rng)
     out += ["accept\tconn,tlshang,conn\tclose,none", "accept\tconn,conn\tshutdown,close", "accept\ttlshang,tlshang\tclose,close"]
+    out += unordered_endings(tier, rng)
     return out
+
+
+def unordered_endings(tier, rng):
+    """Server.Close, Shutdown and the application's own Conn.Close fired WITHOUT waiting for the command loop to get anywhere: the
+    detector reports a pair of accesses only when nothing orders them, and every other lifecycle case waits ("idle") for the loop before
+    it ends the server — which orders the loop's accesses before Close's.  Here the last segment (a chunk, the rest of a chunk, MAIL,
+    RCPT, DATA, a second EHLO, RSET, ...) is pushed and the ending follows at once or after 1-3 ms of sleeping (no synchronisation)."""
+    cases = []
+    E = [b"EHLO x\r\n", b"MAIL FROM:<s@x>\r\n", b"RCPT TO:<a@x>\r\n"]
+    L = [b"LHLO x\r\n", b"MAIL FROM:<s@x>\r\n", b"RCPT TO:<a@x>\r\n", b"RCPT TO:<b@x>\r\n"]
+    lasts = [[b"BDAT 3\r\nabc"], [b"BDAT 3\r\nabc", b"BDAT 10\r\nhello"], [b"BDAT 3 LAST\r\nabc"], [b"BDAT 3\r\nabc", b"BDAT 2 LAST\r\nxy"],
+             [b"DATA\r\nx\r\n.\r\n"], [b"BDAT 3\r\nabc", b"RSET\r\n"], [b"EHLO again\r\n"], [b"BDAT 3\r\nabc", b"MAIL FROM:<x@y>\r\n"],
+             [b"RCPT TO:<z@w>\r\n"], [b"BDAT 3\r\nabc", b"DATA\r\n"], [b"NOOP\r\n"], [b"QUIT\r\n"], [b"BDAT 3\r\nabc", b"QUIT\r\n"]]
+    be = "NS=;MAIL=;RCPT=;DATA=%s|%s;AUTH=;SASL=;HS=" % (g.ddec(ret="prop"), g.ddec(ret="prop"))
+    reps = 1 if tier == "quick" else 4
+    for lm, lms in ((0, 0), (1, 0), (1, 1)):
+        pre = L if lm else E
+        for last in lasts:
+            for ending in ("close", "connclose", "shutdown"):
+                for p in (0, 1, 3):
+                    for late in (0, 1):
+                        if tier == "quick" and (p + late + len(last) + lm) % 2:
+                            continue
+                        for _ in range(reps):
+                            ev = (["latestart"] if late else []) + [seg(*pre), "idle"] + [seg(x) for x in last[:-1]] + [seg(last[-1])] \
+                                + (["pause:%d" % p] if p else []) + [ending]
+                            cases.append("\t".join(["sched", g.cfg_str(dict(lmtp=lm, lmtpsess=lms)), be, ";".join(ev)]) + "\tTAG=lifecycle")
+    return cases
